@@ -33,6 +33,10 @@ def run(ck: Check, repo: Repo) -> None:
                      "as the one in __init__ (activation, normalisation, noise flags ... decide the function computed by the carried-over weights)")
     from .c03 import _build_agreement
     _build_agreement(ck, repo, "C04.7")
+    ck.rule("C04.8", "cloning a network rebuilds the same architecture: a config default that EvolvableNetwork.__init__ derives from a possibly absent key resolves "
+                     "identically on the description (net_config) from which the clone is built")
+    from ._c01_extra import description_idempotent
+    description_idempotent(ck, repo, "C04.8")
     pp = repo.fn(MB, "EvolvableModule.preserve_parameters")
     sp = repo.fn("agilerl.modules.cnn", "EvolvableCNN.shrink_preserve_parameters")
     _preserve_common(ck, repo, pp, "C04.1")
